@@ -151,6 +151,41 @@ func distCall(rows [][]int, o distOpts, r []int, cpus int) (ev distEvent) {
 	return
 }
 
+// distCli asks the same matrix of `goalign compute distance` (no site weights on the command line).
+func distCli(rows [][]int, o distOpts, r []int, cpus int) (ev distEvent, ok bool) {
+	if len(o.Wts) > 0 || len(rows) == 0 {
+		return ev, false
+	}
+	ev = distEvent{T: "dist", Rows: rows, O: o, R: r, Cpus: cpus, M: [][]string{}}
+	argv := []string{"compute", "distance", "--alphabet", "nt", "-m", o.Model, "-t", fmt.Sprint(cpus), "--gap-mut", fmt.Sprint(o.GapMode)}
+	if o.RmGaps {
+		argv = append(argv, "-r")
+	}
+	if o.RmAmb {
+		argv = append(argv, "--rm-ambiguous")
+	}
+	if o.Gamma {
+		argv = append(argv, "--alpha", o.Alpha)
+	}
+	if r[0] != -1 || r[1] != -1 || r[2] != -1 || r[3] != -1 {
+		argv = append(argv, "--range1", fmt.Sprintf("%d:%d", r[0], r[1]), "--range2", fmt.Sprintf("%d:%d", r[2], r[3]))
+	}
+	out, errs, code := runGoalign(fastaRows(rows), argv...)
+	if code != 0 {
+		ev.Kind, ev.Msg = cliKind(errs), "goalign "+fmt.Sprint(argv)+": "+errs
+		if len(ev.Msg) > 600 {
+			ev.Msg = ev.Msg[:600]
+		}
+		return ev, true
+	}
+	m, good := parseDistText(out, len(rows))
+	if !good {
+		return ev, false
+	}
+	ev.Kind, ev.M, ev.Msg = "ok", m, "goalign "+fmt.Sprint(argv)
+	return ev, true
+}
+
 var distModels = []string{"rawdist", "pdist", "jc", "k2p", "f81", "f84", "tn93"}
 
 func randDistRows(rng *rand.Rand, tier string) [][]int {
@@ -271,8 +306,14 @@ func distFamily(env *Env) error {
 		}
 		ev := distCall(c.Rows, c.O, c.R, c.Cpus)
 		ev.ID = fmt.Sprintf("g%d", ng)
-		ng++
 		env.Emit(ev)
+		if cliSampled(ng) {
+			if ce, ok := distCli(c.Rows, c.O, c.R, c.Cpus); ok {
+				ce.ID = ev.ID + ":cli"
+				env.Emit(ce)
+			}
+		}
+		ng++
 		return nil
 	}); err != nil {
 		return err
@@ -296,6 +337,12 @@ func distFamily(env *Env) error {
 		base := distCall(rows, o, r, cpus)
 		base.ID = id
 		env.Emit(base)
+		if cliSampled(i) {
+			if ce, ok := distCli(rows, o, r, cpus); ok {
+				ce.ID = id + ":cli"
+				env.Emit(ce)
+			}
+		}
 		if base.Kind != "ok" || r[0] >= 0 {
 			continue
 		}
